@@ -133,8 +133,9 @@ def judge(case, out):
     """the property's end-to-end oracle on the implementation's own output: written ++ failed are distinct accepted lines in
     acceptance order; lossy: offered = accepted + dropped; a dropped guard whose worker left has drained everything accepted before it"""
     ops = case.split(' ;; ')[1].split(' ; '); outs = out.split(' ')
-    if len(ops) != len(outs): return 'bad shape'
     if any('NOWAIT' in o or 'TIMEOUT' in o for o in outs): return 'bad stuck ' + ' '.join(o for o in outs if 'NOWAIT' in o or 'TIMEOUT' in o)[:60]
+    if len(ops) != len(outs): return 'bad shape'
+    if 'torn' in outs[-1]: return 'bad line-written-torn ' + outs[-1]
     lossy = 'lossy=1' in case
     accepted = []; done = []; offered = 0; dropped = 0; refused = 0; at_drop = None; pending = None; any_blocked = False
     for op, o in zip(ops, outs):
